@@ -121,7 +121,32 @@ func (s *scheduler) getLaunchRequests(shards []*pb.Shard,
 		plog.Infof("address %s, region %s", nh.Address, nh.Region)
 	}
 	plog.Infof("regions content %v", regions)
+	if regions == nil {
+		return nil, errors.New("regions not set")
+	}
+	if len(regions.Region) != len(regions.Count) {
+		return nil, errors.New("inconsistent regions specification")
+	}
+	regionNames := make(map[string]struct{})
+	for _, reg := range regions.Region {
+		if _, ok := regionNames[reg]; ok {
+			// selections made for the same region are not disjoint
+			return nil, errors.New("duplicated region in regions specification")
+		}
+		regionNames[reg] = struct{}{}
+	}
 	for _, shard := range shards {
+		// the requested counts must add up to the shard size
+		remaining := uint64(len(shard.Members))
+		for _, cnt := range regions.Count {
+			if cnt > remaining {
+				return nil, errors.New("regions specification exceeds shard size")
+			}
+			remaining -= cnt
+		}
+		if remaining != 0 {
+			return nil, errors.New("regions specification below shard size")
+		}
 		selected := make([]*nodeHostSpec, 0)
 		for idx, reg := range regions.Region {
 			cnt := int(regions.Count[idx])
